@@ -4,7 +4,7 @@ import sys, re
 sys.path.insert(0, '/verif/lib')
 import common as C
 t = sys.stdin.read()
-idx = [m.start() for m in re.finditer(r'<<"MISMATCH"', t)]
+idx = [m.start() for m in re.finditer(r'<<\s*"MISMATCH"', t)]
 for a, b in zip(idx, idx[1:] + [len(t)]):
     chunk = t[a:b]
     # cut at the end of the top-level tuple
